@@ -13,9 +13,9 @@ from .wrapcheck import run_cases
 ALL_SLOTS = ["p", "s1", "s2", "a", "m", "mi", "mm", "i"]
 
 
-def write_cfg(d, n, m, mi, slots, sample, toggles=(), emit=True, fuel=60, mm=0):
+def write_cfg(d, n, m, mi, slots, sample, toggles=(), emit=True, fuel=60, mm=0, boxes=False):
     C.copy_specs(d, ["DeepCopy.tla"])
-    lines = ["SPECIFICATION Spec", "CONSTANTS", "  N = %d" % n, "  M = %d" % m, "  MI = %d" % mi, "  MM = %d" % mm,
+    lines = ["SPECIFICATION Spec", "CONSTANTS", "  N = %d" % n, "  M = %d" % m, "  MI = %d" % mi, "  MM = %d" % mm, "  Boxes = %s" % ("TRUE" if boxes else "FALSE"),
              "  Slots = {%s}" % ", ".join('"%s"' % s for s in slots), "  Fuel = %d" % fuel, "  SampleN = %d" % sample]
     for t in ("BUG_IfaceNoMemo", "BUG_MapMemoLate"):
         lines.append("  %s = %s" % (t, "TRUE" if t in toggles else "FALSE"))
@@ -25,9 +25,9 @@ def write_cfg(d, n, m, mi, slots, sample, toggles=(), emit=True, fuel=60, mm=0):
     open(os.path.join(d, "D.cfg"), "w").write("\n".join(lines) + "\n")
 
 
-def emit(scratch, tag, n, m, mi, slots, sample, seed, toggles=(), do_emit=True, fuel=60, mm=0):
+def emit(scratch, tag, n, m, mi, slots, sample, seed, toggles=(), do_emit=True, fuel=60, mm=0, boxes=False):
     d = scratch.sub(tag)
-    write_cfg(d, n, m, mi, slots, sample, toggles, do_emit, fuel, mm)
+    write_cfg(d, n, m, mi, slots, sample, toggles, do_emit, fuel, mm, boxes)
     res = C.run_tlc(d, "DeepCopy", "D.cfg", timeout=3000, extra=["-seed", str(seed)])
     seen = set()
     for line in res.out.splitlines():
@@ -69,23 +69,27 @@ def run_check(pid, tier, replay=None):
         if quick:
             sl = ["i", "mi"] + rng.sample(["p", "s1", "a", "m"], 2)
             plan = [(2, 1, 1, sl, 4), (3, 0, 1, ["p", "i"], 1), (3, 1, 0, ["s1", "m"], 1), (1, 1, 1, ALL_SLOTS, 1, 1),
-                    (1, 2, 0, ["m", "mm"], 1, 1), (2, 1, 0, ["p", "mm"], 1, 2)]
+                    (1, 2, 0, ["m", "mm"], 1, 1), (2, 1, 0, ["p", "mm"], 1, 2),
+                    (2, 0, 0, ["p", "i"], 1, 0, True), (2, 0, 1, ["s1", "mi", "i"], 2, 0, True)]
         else:
             # every graph is copied four times (copier, Config defaults, source value, re-stack): the larger universes are
             # sampled (measured: ~1.06M graphs emitted in total)
             plan = [(2, 1, 1, ["p", "s1", "m", "mi", "i"], 5), (2, 1, 1, ["s2", "a", "m", "mi", "i"], 5), (3, 0, 1, ["p", "i"], 1),
                     (3, 1, 0, ["s1", "m"], 1), (3, 1, 1, ["p", "m", "i"], 80), (1, 1, 1, ALL_SLOTS, 1, 1),
-                    (1, 2, 0, ["m", "mm"], 1, 1), (2, 2, 0, ["p", "mm"], 5, 2), (2, 2, 0, ["m", "mm", "i"], 8, 1)]
+                    (1, 2, 0, ["m", "mm"], 1, 1), (2, 2, 0, ["p", "mm"], 5, 2), (2, 2, 0, ["m", "mm", "i"], 8, 1),
+                    (2, 0, 0, ["p", "i"], 1, 0, True), (2, 0, 1, ["s1", "mi", "i"], 1, 0, True), (3, 0, 0, ["p", "i"], 1, 0, True),
+                    (2, 1, 1, ["p", "m", "mi", "i"], 20, 0, True)]
         runs, cases, states, trans = [], [], 0, 0
         for i, row in enumerate(plan):
             n, m, mi, slots, sample = row[:5]
             mm = row[5] if len(row) > 5 else 0
-            cs, res = emit(scratch, "dc%d" % i, n, m, mi, slots, sample, seed, mm=mm)
+            boxes = row[6] if len(row) > 6 else False
+            cs, res = emit(scratch, "dc%d" % i, n, m, mi, slots, sample, seed, mm=mm, boxes=boxes)
             if not res.ok:
                 raise C.Inconclusive("DeepCopy.tla violates its own properties (%s): specification alarm\n%s" % (res.violated, res.out[-1500:]))
             states += res.distinct
             trans += res.generated
-            runs.append({"nodes": n, "maps": m, "imaps": mi, "mmaps": mm, "slots": slots, "graphs": res.distinct, "emitted_one_in": sample, "cases": len(cs)})
+            runs.append({"nodes": n, "maps": m, "imaps": mi, "mmaps": mm, "boxes": boxes, "slots": slots, "graphs": res.distinct, "emitted_one_in": sample, "cases": len(cs)})
             cases += cs
         selftest = {}
         for tog in ("BUG_IfaceNoMemo", "BUG_MapMemoLate"):
